@@ -241,6 +241,12 @@ def finish(result, tier, level, rule, t0, assumptions=None, min_eval=1, level_ex
     os.makedirs(os.path.join(VERIF, "evidence"), exist_ok=True)
     os.makedirs(os.path.join(VERIF, "replays"), exist_ok=True)
 
+    import glob as _glob
+    for old in _glob.glob(os.path.join(VERIF, "replays", "%s-%s-*.json" % (prop, tier))):
+        try:
+            os.unlink(old)
+        except OSError:
+            pass
     known_hits = {}
     violations = {}
     for m in result.mismatches:
